@@ -12,11 +12,14 @@
 //	     an injected commit at that record and before the read lock is
 //	     re-acquired; nothing else runs until db.go reads the header again  (= mid)
 //	oth  salts of the -wal header after the call                        (= other)
-//	d    0: no "sync" record after the PRAGMA (header unchanged, return)
-//	     2: a "sync" record with reason "checkpoint boundary snapshot"
-//	     1: any other "sync" record (re-copy through verify)
+//	c    1 iff a "sync" record appears between the "checkpoint" record and the
+//	     trace point pt.ckpt.bump (the copy after a FULL/RESTART checkpoint)
+//	d    looking at the "sync" records after pt.ckpt.bump:
+//	     0: none (header unchanged, return)
+//	     2: one with reason "checkpoint boundary snapshot"
+//	     1: any other (re-copy through verify)
 //
-// The case is `machine_ck [mode hdr1 hdr2 mid1 mid2 oth1 oth2 pre wn] -> [d]`.
+// The case is `machine_ck [mode hdr1 hdr2 mid1 mid2 oth1 oth2 pre wn] -> [d c]`.
 //
 // Wiring (two lines in main.go):
 //
@@ -31,6 +34,7 @@ import (
 	"strconv"
 	"strings"
 
+	"github.com/benbjohnson/litestream"
 	"github.com/superfly/ltx"
 
 	. "verifharness/hx"
@@ -46,7 +50,9 @@ type ckObserver struct {
 	wn       int64
 	pre      int64
 	mid      [2]uint32
-	syncs    int  // "sync" records after the PRAGMA
+	bumped   bool // pt.ckpt.bump has fired
+	posts    int  // "sync" records after the PRAGMA and before the bump
+	syncs    int  // "sync" records after the bump
 	boundary bool // one of them is the boundary snapshot
 	bad      bool // something could not be observed
 }
@@ -125,6 +131,10 @@ func machineOnLog(w *World, r slog.Record) {
 		if !o.sawCkpt {
 			return
 		}
+		if !o.bumped {
+			o.posts++
+			return
+		}
 		o.syncs++
 		r.Attrs(func(a slog.Attr) bool {
 			if a.Key == "reason" && a.Value.String() == "checkpoint boundary snapshot" {
@@ -161,15 +171,25 @@ func (w *World) observeCheckpoint(rc *Recorder, mode string, f func() error) {
 	}
 	o := &ckObserver{w: w, ps: ps, before: w.localL0(), stateOff: w.ldb.VerifSyncState().LastSyncedWALOffset}
 	ckObs = o
+	prev := litestream.VerifTracePoint // script mode's INJP uses the hook too: chain
+	litestream.VerifTracePoint = func(obj any, ev string) {
+		if ev == "pt.ckpt.bump" {
+			o.bumped = true
+		}
+		if prev != nil {
+			prev(obj, ev)
+		}
+	}
 	err := f()
+	litestream.VerifTracePoint = prev
 	ckObs = nil
-	if err != nil || !o.sawCkpt || o.bad {
+	if err != nil || !o.sawCkpt || !o.bumped || o.bad {
 		return
 	}
 	// an injection after the PRAGMA's record may change the header between db.go's last read and ours
 	injAfter := 0
 	for i, t := range w.trace {
-		if i >= o.traceLen && strings.HasPrefix(t, "INJ[") {
+		if i >= o.traceLen && strings.HasPrefix(t, "INJ") {
 			injAfter++
 		}
 	}
@@ -189,5 +209,8 @@ func (w *World) observeCheckpoint(rc *Recorder, mode string, f func() error) {
 	if hdr != o.mid && mode != "TRUNCATE" {
 		cls += "/restarted-before-pragma-returned"
 	}
-	rc.cw.Add("machine_ck", in, L(I(d)), cls, d != 0)
+	if o.posts > 0 {
+		cls += "/post-copy"
+	}
+	rc.cw.Add("machine_ck", in, L(I(d), B(o.posts > 0)), cls, d != 0)
 }
